@@ -155,7 +155,7 @@ def check(run):
     found_before = len(run.violations) + len(run.known_hit)
     progs, metas = [], []
     nontrivial = 0
-    for _ in range(4000 if thorough else 1200):
+    for _ in range(40000 if thorough else 1200):
         fam = rng.choice(["x64", "x86", "a64", "rv"])
         lf = rng.chance(1, 3)
         lines, meta = frontends_case(rng, fam, lf)
@@ -163,7 +163,7 @@ def check(run):
         metas.append(meta)
         if any(l.split()[0] in ("rf", "rb", "rg", "rd") for l in lines):
             nontrivial += 1
-    for _ in range(2500 if thorough else 800):
+    for _ in range(25000 if thorough else 800):
         lines, meta = reuse_case(rng, rng.choice(["x64", "x86", "a64", "rv"]))
         progs.append(lines)
         metas.append(meta)
